@@ -383,7 +383,13 @@ type w1Instance struct {
 // before any later close began). A reply seen at the very instant of a close may belong
 // to an attempt the close rolled back.
 func (in *w1Instance) sure() bool {
-	return !in.cl.isClosed() || in.startAt < in.cl.closedAt
+	// with the "stalled goroutine" fault simulated time may pass while goroutines are
+	// runnable (bounded by ~1.3 s per run): demand more than that
+	margin := time.Duration(0)
+	if in.cl.w.s.Cfg.StallPm > 0 {
+		margin = 1500 * time.Millisecond
+	}
+	return !in.cl.isClosed() || in.startAt+margin < in.cl.closedAt
 }
 
 func (w *w1World) checkHistory(obs *w1SimClient) {
@@ -965,7 +971,9 @@ func (w *w1World) checkCallbacks(cl *w1SimClient, instances []*w1Instance) {
 	for _, ch := range cl.spec.ConnSubs {
 		attempts[ch]++
 	}
-	if !cl.isClosed() {
+	if !cl.isClosed() || connects == 0 {
+		// the application installs OnUnsubscribe inside OnConnect: without OnConnect
+		// there is no handler that could have been called
 		return
 	}
 	chs := map[string]bool{}
